@@ -590,6 +590,18 @@ impl Server {
         let mut connections_with_writes = Vec::new();
         let mut did_work = false;
         
+        // A blocked client is not read from, but its disconnect must still be noticed:
+        // it then stops waiting instead of being handed an element nobody will receive
+        for id in self.connections.all_connection_ids() {
+            if self.is_connection_blocked(id) {
+                self.connections.with_connection(id, |conn| {
+                    if conn.peer_closed() {
+                        conn.state = ConnectionState::Closing;
+                    }
+                });
+            }
+        }
+        
         // Get all connection IDs, filtering out blocked connections for performance
         let conn_ids: Vec<u64> = self.connections.all_connection_ids()
             .into_iter()
